@@ -1,0 +1,48 @@
+//go:build verif
+
+package topics
+
+// Contracts checked by /verif (lsvc). This file contains comments only and is
+// compiled only with the build tag "verif".
+
+// Lock discipline (C17): the topic's state is only touched with Topic.mu held,
+// a subscription's with Subscription.mu held; every function leaves the
+// mutexes as it found them; no mutex is locked twice by one goroutine.
+//@ guarded Topic.subscribers, Topic.lastID, Topic.last, Topic.hasLast by Topic.mu
+//@ guarded Subscription.topic, Subscription.ch by Subscription.mu
+
+//@ func (t *Topic) Publish
+//@   requires lock_free_on_entry: !held(t.mu)
+//@   lockcheck
+//@   modifies *
+//@ func (t *Topic) Last
+//@   requires lock_free_on_entry: !held(t.mu)
+//@   lockcheck
+//@   modifies *
+//@ func (t *Topic) Subscribe
+//@   requires lock_free_on_entry: !held(t.mu)
+//@   lockcheck
+//@   modifies *
+// Publish holds Topic.mu for the whole delivery and blocks sending to every
+// subscriber. A subscriber that waits for Topic.mu must therefore keep
+// receiving from its channel, or publisher and subscriber wait for each other
+// for ever. unsubscribeID is where a subscriber waits for that mutex: a
+// drainer for the subscriber's channel has to be running by then (the ghost
+// flag is set by spawning it).
+//@ func (t *Topic) unsubscribeID
+//@   requires lock_free_on_entry: !held(t.mu)
+//@   requires subscriber_keeps_receiving: ghost_draining == 1
+//@ func (s *Subscription) Close$1
+//@   goroutine
+//@   ghost draining := 1
+//@   lockcheck
+//@   modifies *
+//@ func (s *Subscription) Channel
+//@   requires lock_free_on_entry: !held(s.mu)
+//@   lockcheck
+//@   modifies *
+//@ func (s *Subscription) Close
+//@   requires lock_free_on_entry: !held(s.mu)
+//@   requires topic_lock_free_on_entry: !held(s.topic.mu)
+//@   lockcheck
+//@   modifies *
